@@ -67,3 +67,72 @@ def rule_R25(ctx, rep, config="c-lib", tag=""):
 
 def rule_R25_cxx(ctx, rep, config="cxx-lib"):
     rule_R25(ctx, rep, config="cxx-lib", tag="[c++] ")
+
+
+def rule_R25_use(ctx, rep, config="c-lib", tag=""):
+    rep.rule("R25-use", "a file-scope variable length object / object stack of yaep.c that is created only under a condition on persistent state (the caller's release "
+                        "function, grammar settings) is touched only under that condition: every access to its members outside the creating function is controlled by "
+                        "the creation's persistent conditions (otherwise the object of an earlier parse -- released memory -- or an object that never existed is written)")
+    p = ctx.prog(config)
+    created = {}
+    for f in p.m.defined():
+        if f.module and not f.module.startswith("yaep."):
+            continue
+        for s in f.all_insts():
+            if s.op != "store":
+                continue
+            pa = resolve_addr(f, s.ops[1])
+            if pa.root[0] != "g":
+                continue
+            v = f.inst(strip_casts(f, s.ops[0]))
+            if v is None or not v.is_call():
+                continue
+            g_ = p.m.functions.get(v.callee or "")
+            nm = (g_.d.get("srcname") if g_ is not None else None) or (v.callee or "")
+            is_field = bool(pa.steps) and (pa.last_field() or "").endswith(("vlo_t.vlo_start", "os_t.os_current_segment"))
+            is_obj = (not pa.steps) and v.callee == "_Znwm"
+            if not ((is_field and nm == "yaep_malloc") or is_obj):
+                continue
+            kc = _persistent(site_conditions(p, f, s))
+            if kc:
+                created.setdefault(pa.root[1], []).append((f, s, kc))
+    n = 0
+    for g, sites in sorted(created.items()):
+        cf, cs, kc = sites[0]
+        for f in p.m.defined():
+            if (f.module and not f.module.startswith("yaep.")) or f is cf:
+                continue
+            seen_blocks = set()
+            for i in f.all_insts():
+                ops = [i.ops[0]] if i.op == "load" else ([i.ops[1]] if i.op == "store" else (i.args if i.is_call() else []))
+                hit = False
+                for o in ops:
+                    if not isinstance(o, dict):
+                        continue
+                    pa = resolve_addr(f, o) if o.get("k") in ("i", "g") else None
+                    if pa is not None and pa.root == ("g", g):
+                        hit = True
+                if not hit or i.block.name in seen_blocks:
+                    continue
+                seen_blocks.add(i.block.name)
+                n += 1
+                rep.cover(p, [f.name])
+                key = tag + "%s/use-of-%s#%d" % (f.name, g, n)
+                ku = _persistent(site_conditions(p, f, i))
+                missing = kc - ku
+                if missing:
+                    # one level up: every caller calls f under the condition
+                    sites_ = [(h, c_) for h in p.m.defined() for c_ in h.calls() if f.name in p.call_targets(h, c_)]
+                    if sites_ and all(not (missing - _persistent(site_conditions(p, h, c_))) for (h, c_) in sites_):
+                        missing = set()
+                if not missing:
+                    rep.ok("R25-use", key, sample={"use": i.where(), "creation": cs.where(), "conditions": sorted(kc)})
+                else:
+                    rep.violation("R25-use", key, "`%s' is created in %s only when %s, but %s touches it without that condition: in a parse where it was not created the "
+                                  "object of an earlier parse (released memory) or an object that never existed is written" % (g, cf.name, " and ".join(sorted(missing)), f.name),
+                                  where=i.where(), witness=[cs.where(), i.where()])
+    rep.floor("R25-use", tag + "uses of conditionally created file-scope containers", n, 3)
+
+
+def rule_R25_use_cxx(ctx, rep, config="cxx-lib"):
+    rule_R25_use(ctx, rep, config="cxx-lib", tag="[c++] ")
